@@ -603,6 +603,18 @@ def leading(rep, meta, g, sfx):
             ok = arg is not None and strips(scope, hirq.line(n)) and any(
                 kind(x) == "MethodCall" and x["m"] == "next" and hirq.local_id(x["recv"]) == arg
                 for y in walk(scope) if kind(y) == "If" for x in walk(y))
+        if not ok:
+            # the pairs come out of a helper of the reader that opens the expression and drops the operator itself
+            a0 = peel(n["args"][0])
+            lets0 = hirq.lets(fn["body"])
+            hops = 0
+            while kind(a0) == "Path" and a0.get("res") == "local" and a0["id"] in lets0 and hops < 3:
+                a0 = peel(lets0[a0["id"]][0])
+                hops += 1
+            if kind(a0) in ("Call", "MethodCall") and isinstance(callee(a0), str) and callee(a0).startswith("pest_meta::parser::"):
+                h = meta.fn(callee(a0))
+                if h is not None and h is not ce and h.get("body") is not None and strips(h["body"]):
+                    ok = True
         r.instance(key, where(n))
         if not ok:
             r.violation(key, where(n),
